@@ -23,7 +23,9 @@ From Cell2V Require Import Common.Tac Common.ListX Common.AList.
 
 Inductive kind := KPush | KResp | KErr.
 
-Record item := mkItem { it_iss : Z; it_conn : Z; it_kind : kind; it_tag : Z; it_seq : Z }.
+(* it_size: the payload padding in bytes - pure data for the queue network (the order theorems
+   hold for all sizes: Props.C03_order_size_independent), compared at the client *)
+Record item := mkItem { it_iss : Z; it_conn : Z; it_kind : kind; it_tag : Z; it_seq : Z; it_size : Z }.
 
 Inductive label := LIssue (i : Z) | LProcess | LWrite (c : Z).
 
@@ -77,14 +79,16 @@ Inductive op :=
 | OConn (c slow : Z)                       (* connect; slow: the client pauses that many us per message *)
 | OStall (c ms : Z)                        (* the client stops reading for ms milliseconds from now *)
 | OKey (c v : Z)                           (* set the routing key of c (acknowledged before the next op) *)
-| OSend (c ty n1 n2 tag pad mode : Z) (targets : list Z).
-    (* pipelined request: n1 pushes, the response, n2 pushes.  mode 0: each push goes to the
+| OSend (c ty n1 n2 tag : Z) (pads : list Z) (rpad mode : Z) (targets : list Z).
+    (* pipelined request: n1 pushes, the response, n2 pushes.  Push number q is padded with
+       [pad_at pads q] bytes (pads is repeated cyclically: sizes vary WITHIN one handler's issue
+       sequence), the response with rpad bytes.  mode 0: each push goes to the
        requester (PushMessageById); mode 1: to the connected ones among [targets]
        (PushMessageByIds); mode 2: broadcast through a channel holding them (Channel.PushMessage) *)
 
 Inductive ev :=
-| EPush (inst tag seq ctr cnt : Z)         (* cnt consecutive pushes seq.., issue counters ctr.. *)
-| EResp (inst tag ctr : Z)
+| EPush (inst tag seq ctr cnt size : Z)    (* cnt consecutive pushes seq.., issue counters ctr.., all padded with size bytes *)
+| EResp (inst tag ctr size : Z)
 | EErr                                     (* error response (no payload) *)
 | EOther.
 
@@ -93,12 +97,18 @@ Fixpoint zseq_from (from : Z) (fuel : nat) : list Z :=
 
 Definition zseq (from count : Z) : list Z := zseq_from from (Z.to_nat count).
 
-(* count pushes numbered from.., each to every target (one item per target, in listing order) *)
-Definition pushes (i tag : Z) (targets : list Z) (from count : Z) : list item :=
-  flat_map (fun q => map (fun t => mkItem i t KPush tag q) targets) (zseq from count).
+Definition pad_at (pads : list Z) (q : Z) : Z :=
+  match pads with
+  | [] => 0
+  | _ => nth (Z.to_nat (q mod Z.of_nat (length pads))) pads 0
+  end.
 
-Definition script (i c tag n1 n2 : Z) (targets : list Z) : list item :=
-  pushes i tag targets 0 n1 ++ [mkItem i c KResp tag 0] ++ pushes i tag targets n1 n2.
+(* count pushes numbered from.., each to every target (one item per target, in listing order) *)
+Definition pushes (i tag : Z) (pads targets : list Z) (from count : Z) : list item :=
+  flat_map (fun q => map (fun t => mkItem i t KPush tag q (pad_at pads q)) targets) (zseq from count).
+
+Definition script (i c tag n1 n2 : Z) (pads : list Z) (rpad : Z) (targets : list Z) : list item :=
+  pushes i tag pads targets 0 n1 ++ [mkItem i c KResp tag 0 rpad] ++ pushes i tag pads targets n1 n2.
 
 (* routing of the harness node: gate is the front itself, room has one instance (3), chat is
    routed by the connection's key (1 / 2), anything else has no target *)
@@ -113,7 +123,7 @@ Definition conn_step (cs : alist Z) (o : op) : alist Z :=
   match o with
   | OConn c _ => match aget c cs with None => aset c 0 cs | Some _ => cs end
   | OKey c v => match aget c cs with Some _ => aset c v cs | None => cs end
-  | OStall _ _ | OSend _ _ _ _ _ _ _ _ => cs
+  | OStall _ _ | OSend _ _ _ _ _ _ _ _ _ => cs
   end.
 
 Definition connected (cs : alist Z) (c : Z) : bool :=
@@ -127,13 +137,13 @@ Fixpoint issue_from (cs : alist Z) (ops : list op) : list item :=
   | [] => []
   | o :: r =>
       (match o with
-       | OSend c ty n1 n2 tag _ mode targets =>
+       | OSend c ty n1 n2 tag pads rpad mode targets =>
            match aget c cs with
            | Some key =>
                match target ty key with
-               | Some i => script i c tag n1 n2
+               | Some i => script i c tag n1 n2 pads rpad
                              (if Z.eqb mode 0 then [c] else filter (connected cs) targets)
-               | None => [mkItem front c KErr 0 0]     (* no target: the front answers an error *)
+               | None => [mkItem front c KErr 0 0 0]     (* no target: the front answers an error *)
                end
            | None => []
            end
@@ -150,10 +160,10 @@ Definition issue_logs (ops : list op) : qmap :=
 (* arrival sequence of one connection, expanded from the run-length encoding *)
 Definition expand (c : Z) (e : ev) : list item :=
   match e with
-  | EPush i tag s _ cnt => map (fun q => mkItem i c KPush tag q) (zseq s cnt)
-  | EResp i tag _ => [mkItem i c KResp tag 0]
-  | EErr => [mkItem front c KErr 0 0]
-  | EOther => [mkItem (-1) c KErr 0 0]
+  | EPush i tag s _ cnt sz => map (fun q => mkItem i c KPush tag q sz) (zseq s cnt)
+  | EResp i tag _ sz => [mkItem i c KResp tag 0 sz]
+  | EErr => [mkItem front c KErr 0 0 0]
+  | EOther => [mkItem (-1) c KErr 0 0 0]
   end.
 
 Definition arrivals (c : Z) (evs : list ev) : list item := flat_map (expand c) evs.
@@ -161,7 +171,7 @@ Definition arrivals (c : Z) (evs : list ev) : list item := flat_map (expand c) e
 (* issue counters of one issuer's items, in arrival order (error responses carry none) *)
 Definition counters (i : Z) (evs : list ev) : list Z :=
   flat_map (fun e => match e with
-                     | EPush j _ _ ctr cnt => if Z.eqb j i then zseq ctr cnt else []
-                     | EResp j _ ctr => if Z.eqb j i then [ctr] else []
+                     | EPush j _ _ ctr cnt _ => if Z.eqb j i then zseq ctr cnt else []
+                     | EResp j _ ctr _ => if Z.eqb j i then [ctr] else []
                      | _ => []
                      end) evs.
